@@ -501,6 +501,25 @@ Definition sk_run_search : list ev :=
    IfE;
    Ret].
 
+Definition sk_tm_init : list ev :=
+  [Call "event_new";
+   Call "event_clear";
+   Call "thread_new";
+   Wr "running"].
+
+Definition sk_tm_start : list ev :=
+  [Call "thread_start";
+   Wr "running"].
+
+Definition sk_tm_stop : list ev :=
+  [Rd "running";
+   IfB;
+   Call "event_set";
+   Call "thread_join";
+   Wr "running";
+   Else;
+   IfE].
+
 Definition sk_run_single : list ev :=
   [LoopB;
    Call "task_execute";
